@@ -21,9 +21,9 @@ LEVELS = {
     "o": ["Olow", "Omid", "Ohigh", "Otop", "Oultra"],  # ordered
     "y2": ["Ya", "Yb", "Yc"],
 }
-UNSEEN = {"f1": "Qzz", "f": "Fzz", "g": "Gzz", "h": "Hzz", "c": "Czz", "o": "Ozz", "k": 97}
+UNSEEN = {"dz": 9.75, "f1": "Qzz", "f": "Fzz", "g": "Gzz", "h": "Hzz", "c": "Czz", "o": "Ozz", "k": 97}
 # several different unseen labels per variable: sorting after, before and between the known ones
-UNSEEN_MORE = {"f1": ["Qzz", "Aa1"], "f": ["Fzz", "Aaf", "Fbz"], "g": ["Gzz", "Aag", "Gbz"], "h": ["Hzz", "Aah", "Hbz"],
+UNSEEN_MORE = {"dz": [9.75, -1.25], "f1": ["Qzz", "Aa1"], "f": ["Fzz", "Aaf", "Fbz"], "g": ["Gzz", "Aag", "Gbz"], "h": ["Hzz", "Aah", "Hbz"],
                "c": ["Czz", "Aac", "Cnn"], "o": ["Ozz", "Aao", "Onn"], "k": [97, -5, 55]}
 MODES = ["error", "warning", "silent"]
 KEY = "EVAL_UNSEEN_CATEGORIES"
@@ -34,7 +34,7 @@ ALL_FAMILIES = [
     "inter", "star", "slash", "power", "group", "group_slope", "group_cat",
     "group_inter_factor", "group_multi_factor", "group_transform", "group_box",
     "resp_level", "resp_prop", "resp_cat", "resp_none", "nointercept", "extra", "dotted", "onelevel", "npwarn",
-    "paren", "minus", "catcall", "nestedbox", "knots",
+    "paren", "minus", "catcall", "nestedbox", "knots", "floatcat", "nsenc", "innerbounds",
 ]
 
 
@@ -176,6 +176,8 @@ class Gen:
         cols.append(["t", "int", trials, None])
         cols.append(["s", "int", [r.randint(0, t) for t in trials], None])
         cols.append(["y2", "str", levels_column(LEVELS["y2"][: nlev["y2"]]), None])
+        # a categorical with FLOAT levels, two of which differ only in the last bits (0.1 + 0.2 vs 0.3)
+        cols.append(["dz", "float", levels_column([0.3, 0.1 + 0.2, 0.5, 1.5][: max(2, min(4, cfg["nlev"]))]), None])
         cols.append(["f1", "str", ["Only"] * n, None])  # a categorical with a single level (zero columns when reduced)
         cols.append(["m", "int", [r.randint(-3, 40) for _ in range(n)], None])  # integer-valued numeric predictor
         cols.append(["my col", "float", [round(5 + 2 * r.gauss(0, 1), 3) for _ in range(n)], None])  # needs backquotes
@@ -252,6 +254,9 @@ class Gen:
             degree = r.choice([0, 1, 2, 3, 3])
             df = r.randint(max(3, degree + 1), 8)
             form = r.choice(["df", "df_degree", "pos", "intercept", "bounds"])
+            if "innerbounds" in fam and r.random() < 0.35:
+                # no inner knots (df = degree = 3), boundary knots at the quartiles of the first training frame
+                return Item(f"bs({v}, df=3, lower_bound=lb_{v}, upper_bound=ub_{v})", [v], fams=["bs", "innerbounds"])
             if "knots" in fam and r.random() < 0.3:
                 return Item(f"bs({v}, knots=kn_{v})", [v], fams=["bs", "knots"])
             if form == "bounds":
@@ -315,6 +320,10 @@ class Gen:
             opts += [("onelevel", 1)]
         if "catcall" in fam:
             opts += [("catcall", 2)]
+        if "floatcat" in fam:
+            opts += [("floatcat", 2)]
+        if "nsenc" in fam:
+            opts += [("nsenc", 2)]
         if "nestedbox" in fam:
             opts += [("nestedbox", 1)]
         if not opts:
@@ -322,6 +331,12 @@ class Gen:
         kind = r.choices([o[0] for o in opts], [o[1] for o in opts])[0]
         if kind == "onelevel":
             return Item("f1", ["f1"], cats=["f1"], fams=["onelevel"])
+        if kind == "floatcat":
+            return Item(r.choice(["C(dz)", "S(dz)", "T(dz)", "C(dz, Sum)"]), ["dz"], cats=["dz"], fams=["box", "floatcat"])
+        if kind == "nsenc":
+            # an Encoding INSTANCE owned by the caller (tr0 = Treatment(), sm0 = Sum()) used by several designs
+            v = r.choice([c for c in STR_COLS if c not in avoid] or STR_COLS)
+            return Item(f"C({v}, {r.choice(['tr0', 'tr0', 'sm0'])})", [v], cats=[v], fams=["box", "nsenc"])
         if kind == "catcall":
             # a call whose result is a plain categorical (string) column, not a C()/T()/S() box
             v = r.choice([c for c in STR_COLS if c not in avoid] or STR_COLS)
@@ -671,7 +686,7 @@ class Gen:
             pool = [values[i] for i in retained if values[i] is not None]
             if not pool:
                 pool = [v for v in values if v is not None] or [0]
-            if kind == "float":
+            if kind == "float" and name != "dz":
                 vals = [round(r.choice(pool) * scale + shift + r.gauss(0, 1), 3) for _ in range(n)]
             elif name == "t":
                 vals = [r.randint(1, 12) for _ in range(n)]
@@ -931,7 +946,7 @@ class Gen:
             # new numbers / permuted levels, same shape, same columns
             new = {"cols": [], "index": list(spec["index"])}
             for name, kind, values, extra in spec["cols"]:
-                if kind == "float":
+                if kind == "float" and name != "dz":
                     vals = [round(v * 1.5 + 3, 3) if v is not None else None for v in values]
                 else:
                     vals = list(values)
